@@ -117,6 +117,16 @@ func (c c02) sessions(tier string) []c02Case {
 			{Op: "put", K: "b", V: "z"}, {Op: "del", K: "c"}, {Op: "rotwait"}, {Op: "compact"}, cl}
 		out = append(out, c02Case{Name: "ii-compact-3-tables", Mode: mode, Sess: mkDBSession(small, ops...)})
 	}
+	{
+		// delete-heavy tail: keys that already live in tables are deleted one after the other under a memstore limit that
+		// every tombstone exceeds (whatever a Delete does about the memstore size, it must not lose its own log record)
+		for _, mem := range []uint64{1, 2} {
+			tiny := sess.Cfg{Mem: mem, Thresh: 10, Ratio: 1.0, RBuf: 4096, WBuf: 16, Async: async}
+			ops := []sess.Op{{Op: "put", K: "a", V: "x"}, {Op: "put", K: "b", V: "x"}, {Op: "put", K: "c", V: "x"}, {Op: "barrier"},
+				{Op: "del", K: "a"}, {Op: "del", K: "b"}, {Op: "del", K: "c"}, {Op: "barrier"}, {Op: "put", K: "b", V: "y"}, cl}
+			out = append(out, c02Case{Name: fmt.Sprintf("i-deletes-of-flushed-keys-mem%d", mem), Mode: mode, Sess: mkDBSession(tiny, ops...)})
+		}
+	}
 	// (iii) two-session history
 	{
 		c2 := small
